@@ -43,3 +43,57 @@ func After(d Duration) <-chan Time {
 func Sleep(d Duration) { sched.Sleep(int64(d)) }
 
 func Unix(sec, nsec int64) Time { return time.Unix(sec, nsec) }
+
+// Timer mirrors time.Timer on the virtual clock. A timer fires at quiescence, when the clock reaches
+// its deadline (timers with equal deadlines fire in an order the scheduler chooses); Stop and Reset
+// are scheduling points.
+type Timer struct {
+	C  <-chan Time
+	ch chan Time
+	f  func()
+	tm *sched.Timer
+}
+
+func (t *Timer) arm(d Duration) {
+	dl := sched.Now() + int64(d)
+	if t.f != nil {
+		f := t.f
+		t.tm = sched.AddTimer(dl, "time.AfterFunc", func() { sched.GoNamed("time.AfterFunc", f) })
+	} else {
+		ch := t.ch
+		t.tm = sched.AddTimer(dl, "time.Timer", func() {
+			if len(ch) == 0 {
+				vchan.RawSend(ch, Epoch.Add(time.Duration(dl)))
+			}
+		})
+	}
+}
+
+// AfterFunc runs f in its own thread once d has elapsed on the virtual clock.
+func AfterFunc(d Duration, f func()) *Timer {
+	t := &Timer{f: f}
+	t.arm(d)
+	return t
+}
+
+// NewTimer sends the time on C once d has elapsed on the virtual clock.
+func NewTimer(d Duration) *Timer {
+	ch := make(chan Time, 1)
+	t := &Timer{C: ch, ch: ch}
+	t.arm(d)
+	return t
+}
+
+// Stop prevents the timer from firing; it reports whether the timer was still pending.
+func (t *Timer) Stop() bool {
+	sched.Op("timer.stop", 0, nil)
+	return t.tm.Stop()
+}
+
+// Reset re-arms the timer; it reports whether the timer was still pending.
+func (t *Timer) Reset(d Duration) bool {
+	sched.Op("timer.reset", 0, nil)
+	active := t.tm.Stop()
+	t.arm(d)
+	return active
+}
